@@ -107,8 +107,8 @@ var srvSets = map[string][]srvRec{
 }
 
 var cur struct {
-	mu sync.Mutex
-	sc *scenario
+	mu     sync.Mutex
+	sc     *scenario
 	wkHits []string
 	dnsQ   []string
 }
@@ -695,7 +695,7 @@ func run(r *harness.Run) {
 	var disp []dispCase
 	dnames := []struct {
 		name, wk string
-		srv       map[string]string
+		srv      map[string]string
 	}{
 		{"1.2.3.4", "absent", nil}, {"[::1]:8449", "absent", nil}, {"example.org:8449", "absent", nil}, {"example.org", "absent", nil},
 		{"example.org", "absent", map[string]string{"_matrix-fed._tcp.example.org.": "fed2"}},
